@@ -10,7 +10,7 @@ import (
 func init() {
 	Registry["C01"] = RuleDef{Module: ".", Run: runC01,
 		Technique:   "who-may-call rule on the queue interface, must-pass / escape rules for enqueued slots and the in-flight counter, typestate rule on pooled buffers, guard rule on the synchronous fast path, value-provenance rules in the reader and writer loops",
-		Explanation: "Decides structural necessary conditions of the FIFO hand-off on one connection: (R01a) the queue's consumer methods are called only by the single writer and the single reader/teardown goroutine, which are started only from _background, itself started under a compare-and-swap latch; (R01b) every slot a caller enqueues is received from on every path, or handed to a goroutine that receives from it when the caller abandons the call; (R01c) every increment of the in-flight counter is matched by a decrement on every path (directly, in the abandon goroutine, or by the stream that takes ownership); (R01e) a pooled buffer is never used after it was returned to its pool, and a result buffer handed to the queue is never returned to the caller that abandoned the call (the reader may still write late replies into it); (R01g) the synchronous fast path is taken only by a lone caller on a connection in synchronous state; (R01i) no method is called on the pipe's cache store where it can be nil (caching disabled): each call is behind a nil test or, in the reader, behind the opt-in marker that only the cache paths enqueue; (R01h) the background reader is started only where no other caller can be inside a synchronous read of the socket (construction, the lone registered caller, after the caller's own exchange, after the caller closed the connection on its own I/O error); (R01f) the reader delivers exactly the reply it just read, stored at the fulfilment index which then advances by one; (R01d) the writer writes exactly the commands it dequeued, in slice order, before dequeuing again.",
+		Explanation: "Decides structural necessary conditions of the FIFO hand-off on one connection: (R01a) the queue's consumer methods are called only by the single writer and the single reader/teardown goroutine, which are started only from _background, itself started under a compare-and-swap latch; (R01b) every slot a caller enqueues is received from on every path, or handed to a goroutine that receives from it when the caller abandons the call; (R01c) every increment of the in-flight counter is matched by a decrement on every path (directly, in the abandon goroutine, or by the stream that takes ownership); (R01e) a pooled buffer is never used after it was returned to its pool, and a result buffer handed to the queue is never returned to the caller that abandoned the call (the reader may still write late replies into it); (R01g) the synchronous fast path is taken only by a lone caller on a connection in synchronous state; (R01i) no method is called on the pipe's cache store where it can be nil (caching disabled): each call is behind a nil test or, in the reader, behind the opt-in marker that only the cache paths enqueue; (R01j) the flow-buffer queue hands a slot (and its result channel) back to the free list only after the reader finished with it; (R01h) the background reader is started only where no other caller can be inside a synchronous read of the socket (construction, the lone registered caller, after the caller's own exchange, after the caller closed the connection on its own I/O error); (R01f) the reader delivers exactly the reply it just read, stored at the fulfilment index which then advances by one; (R01d) the writer writes exactly the commands it dequeued, in slice order, before dequeuing again.",
 		NotDecided:  "slot-to-reply matching across interleavings, push-frame skipping and cancellation races (the data-dependent heart of the property); see C02 for the queue's own state machine."}
 }
 
@@ -517,6 +517,10 @@ func runC01(r *Report) {
 		ok := nilTested(s.Block) || viaCallers(s.Fn)
 		r.ObSite("R01i", s, "opt-in-marker-only-with-a-cache", ok, "the opt-in marker is enqueued only behind the cache paths' own nil test")
 	}
+
+	// R01j: the alternative queue (flow buffer) frees a slot - and with it the slot's result channel -
+	// only after the reader delivered the result (token cycle f->w->r->f; shared with C02/R02e)
+	flowRulesAs(r, "R01j")
 
 	// R01f reader delivers what it read
 	if rd := r.FnAnchor("R01f", P+"_backgroundRead"); rd != nil {
